@@ -4,6 +4,8 @@ pub mod cli;
 pub mod drive;
 pub mod engine;
 pub mod genr;
+pub mod letters;
+pub mod monitor;
 pub mod refcond;
 pub mod report;
 pub mod sched;
